@@ -15,7 +15,7 @@ theorem verified_implies_policy (registry : String → Option Alg) (privOps : Li
     (allowed : Option (List String)) (privHdrs : List String) (h : Hdr) (arg : KeyArg) (a : Alg) (k : KeyDesc)
     (hp : policy registry privOps allowed privHdrs h arg = .ok (a, k)) :
     ∃ name, h.alg = some name ∧ registry name = some a ∧ (∀ l, allowed = some l → name ∈ l) ∧
-      a ≠ .none ∧ familyOk a k.kty = true ∧ selectKey arg h.kid = .ok k ∧
+      a ≠ .none ∧ familyOk a k.kty = true ∧ selectKey arg h.kid h.jwk = .ok k ∧
       checkKeyOp privOps "verify" k = .ok () ∧ critOk privHdrs h = true := by
   unfold policy at hp
   by_cases hc : critOk privHdrs h = true
@@ -30,7 +30,7 @@ theorem verified_implies_policy (registry : String → Option Alg) (privOps : Li
         | none => simp [hreg] at hp
         | some a' =>
           simp only [hreg] at hp
-          cases hsel : selectKey arg h.kid with
+          cases hsel : selectKey arg h.kid h.jwk with
           | error e => simp [hsel] at hp
           | ok k' =>
             simp only [hsel] at hp
@@ -126,6 +126,40 @@ theorem missing_kid_many_keys_is_error (ks : List KeyDesc) (isObj : Bool) (hlen 
     | [], _ => rfl
     | [_], h => exact absurd rfl h
     | _ :: _ :: _, _ => rfl
+
+/-! ### key resolvers, no key, and the token's own `jwk` header -/
+
+/-- a key resolver's answer is the key that is used, whatever key the token offers in its own `jwk` header -/
+theorem resolver_key_is_used (k : KeyDesc) (kid : Option String) (embedded : Option KeyDesc) :
+    selectKey (.resolver (some k)) kid embedded = .ok k := rfl
+
+/-- a resolver that has no key for the token is an error — the token's own `jwk` header is NOT tried -/
+theorem resolver_without_key_is_error (kid : Option String) (embedded : Option KeyDesc) :
+    selectKey (.resolver none) kid embedded = .error .keyValue := rfl
+
+/-- hence: nothing is verified when the resolver has no key, for every header (in particular one that carries a `jwk`) -/
+theorem resolver_without_key_never_verifies (registry : String → Option Alg) (privOps : List String)
+    (allowed : Option (List String)) (privHdrs : List String) (h : Hdr) (a : Alg) (k : KeyDesc) :
+    policy registry privOps allowed privHdrs h (.resolver none) ≠ .ok (a, k) := by
+  intro hp
+  obtain ⟨_, _, _, _, _, _, hsel, _⟩ := verified_implies_policy registry privOps allowed privHdrs h _ a k hp
+  simp [selectKey] at hsel
+
+/-- the key a token carries in its own `jwk` header is used only when the caller designated no key at all -/
+theorem embedded_jwk_only_without_designated_key (arg : KeyArg) (kid : Option String) (e k : KeyDesc)
+    (h : selectKey arg kid (some e) = .ok k) (hne : selectKey arg kid none ≠ .ok k) : arg = .absent := by
+  cases arg with
+  | absent => rfl
+  | single k' => simp [selectKey] at h hne; exact absurd h hne
+  | keySet ks => exact absurd h hne
+  | dictSet ks => exact absurd h hne
+  | resolver a =>
+    cases a with
+    | none => simp [selectKey] at h
+    | some k' => exact absurd h hne
+
+/-- no key and no `jwk` header: an error -/
+theorem absent_key_without_jwk_is_error (kid : Option String) : selectKey .absent kid none = .error .keyValue := rfl
 
 /-! ### use / key_ops -/
 
